@@ -150,8 +150,61 @@ impl PanicInfo {
     }
 }
 
+// every guarded call beats a per-thread counter (odd while inside), so that a global monitor can
+// tell a case that never returns from a slow run
+static BEATS: Mutex<Vec<Arc<AtomicU64>>> = Mutex::new(Vec::new());
+thread_local! {
+    static MY_BEAT: Arc<AtomicU64> = {
+        let b = Arc::new(AtomicU64::new(0));
+        BEATS.lock().unwrap().push(b.clone());
+        b
+    };
+    static GUARD_DEPTH: Cell<u32> = const { Cell::new(0) };
+}
+
+/// Global hang monitor: if some thread stays inside one guarded call for `limit`, the code
+/// under test is not returning; that is reported as a machinery exit (no verdict) unless the
+/// property has its own, shorter, watchdog that turns it into a violation.
+pub fn start_hang_monitor(prop: String, limit: Duration) {
+    std::thread::spawn(move || {
+        let mut seen: Vec<(u64, Instant)> = Vec::new();
+        loop {
+            std::thread::sleep(Duration::from_secs(2));
+            let beats: Vec<Arc<AtomicU64>> = BEATS.lock().unwrap().clone();
+            seen.resize(beats.len(), (0, Instant::now()));
+            for (i, b) in beats.iter().enumerate() {
+                let v = b.load(Ordering::Relaxed);
+                if v != seen[i].0 {
+                    seen[i] = (v, Instant::now());
+                } else if v % 2 == 1 && seen[i].1.elapsed() > limit {
+                    println!("MACHINERY: the code under test did not return from one case within {:?} while checking {}; no verdict for this property", limit, prop);
+                    eprintln!("MACHINERY: hang in the code under test ({})", prop);
+                    std::process::exit(2);
+                }
+            }
+        }
+    });
+}
+
 /// Run `f`, converting a panic into `Err(PanicInfo)`.
 pub fn guarded<R>(f: impl FnOnce() -> R) -> Result<R, PanicInfo> {
+    let outer = GUARD_DEPTH.with(|d| {
+        let v = d.get();
+        d.set(v + 1);
+        v == 0
+    });
+    if outer {
+        MY_BEAT.with(|b| b.fetch_add(1, Ordering::Relaxed));
+    }
+    let r = guarded_inner(f);
+    GUARD_DEPTH.with(|d| d.set(d.get() - 1));
+    if outer {
+        MY_BEAT.with(|b| b.fetch_add(1, Ordering::Relaxed));
+    }
+    r
+}
+
+fn guarded_inner<R>(f: impl FnOnce() -> R) -> Result<R, PanicInfo> {
     LAST_PANIC.with(|p| *p.borrow_mut() = None);
     match panic::catch_unwind(AssertUnwindSafe(f)) {
         Ok(r) => Ok(r),
